@@ -32,6 +32,7 @@ package gcetcbendorsement
 //@   ensures[C17] err == nil ==> forall(i, 0 <= i && i < old(len(policy.TrustedAuthorKeys)) ==> val(policy.TrustedAuthorKeys[i]) == old(val(policy.TrustedAuthorKeys[i])))
 
 //@ func SevPolicy
+//@   modifies pbsrc, pbok
 //@   requires opts != nil && endorsement != nil
 //@   sweep[C07]
 //@   assigns[C17] nothing
@@ -56,6 +57,7 @@ package gcetcbendorsement
 //@   ensures[C17] err != nil ==> unchanged(tdxpolicy.TdQuoteBodyPolicy)
 
 //@ func TdxPolicy
+//@   modifies pbsrc, pbok
 //@   requires opts != nil && endorsement != nil
 //@   sweep[C07]
 //@   assigns[C17] nothing
@@ -69,6 +71,7 @@ package gcetcbendorsement
 //@   loop 1 invariant 0 <= k && k < len(mrtds) ==> exists(j, 0 <= j && j < len(golden.Tdx.Measurements) && tdxRow(golden.Tdx.Measurements[j], mrtds[k], opts.RAMGiB))
 
 //@ func SevValidate
+//@   modifies *
 //@   requires opts != nil && attestation != nil
 //@   sweep[C07]
 //@   ensures[C01] err == nil ==> vfFn != nil && vfRoots == opts.RootsOfTrust && vfNow == opts.Now
@@ -77,6 +80,7 @@ package gcetcbendorsement
 //@   ensures[C02] err == nil ==> vfVmsas == opts.ExpectedLaunchVmsas
 
 //@ func TdxValidate
+//@   modifies *
 //@   requires opts != nil
 //@   sweep[C07]
 //@   ensures[C01] err == nil && opts.Endorsement != nil ==> authentic(val(opts.Endorsement.SerializedUefiGolden), val(opts.Endorsement.Signature), opts.RootsOfTrust, opts.Now)
